@@ -120,3 +120,208 @@ Definition t32_pbi_table : list (entry (option Z)) := [
   row "xxxxxxx 11010 xxxx x 000 xxxx 00xx xxxx" (O enc_Usat16T1);
   row "xxxxxxx 11010 xxxx x xxx xxxx xxxx xxxx" (O enc_UsatT1);
   row "xxxxxxx 11100 xxxx x xxx xxxx xxxx xxxx" (O enc_UbfxT1) ].
+
+(* ---------- A6.3.5 Load/store multiple: op(24:23) W(21) L(20) Rn(19:16) ---------- *)
+Definition t32_lsm_table : list (entry (option Z)) := [
+  row "xxxxxxx 00 x x 0 xxxx xxxx xxxx xxxx xxxx" (O enc_SrsThumbT1);
+  row "xxxxxxx 00 x x 1 xxxx xxxx xxxx xxxx xxxx" (O enc_RfeT1);
+  row "xxxxxxx 01 x x 0 xxxx xxxx xxxx xxxx xxxx" (O enc_StmT2);
+  row "xxxxxxx 01 x 1 1 1101 xxxx xxxx xxxx xxxx" (O enc_PopThumbT2);
+  row "xxxxxxx 01 x x 1 xxxx xxxx xxxx xxxx xxxx" (O enc_LdmThumbT2);
+  row "xxxxxxx 10 x 1 0 1101 xxxx xxxx xxxx xxxx" (O enc_PushT2);
+  row "xxxxxxx 10 x x 0 xxxx xxxx xxxx xxxx xxxx" (O enc_StmdbT1);
+  row "xxxxxxx 10 x x 1 xxxx xxxx xxxx xxxx xxxx" (O enc_LdmdbT1);
+  row "xxxxxxx 11 x x 0 xxxx xxxx xxxx xxxx xxxx" (O enc_SrsThumbT2);
+  row "xxxxxxx 11 x x 1 xxxx xxxx xxxx xxxx xxxx" (O enc_RfeT2) ].
+
+(* ---------- A6.3.6 Load/store dual, load/store exclusive, table branch: op1(24:23) op2(21:20) Rn op3(7:4) ---------- *)
+Definition t32_dual_table : list (entry (option Z)) := [
+  row "xxxxxxx 00 x 00 xxxx xxxx xxxx xxxx xxxx" (O enc_StrexT1);
+  row "xxxxxxx 00 x 01 xxxx xxxx xxxx xxxx xxxx" (O enc_LdrexT1);
+  row "xxxxxxx 0x x 10 xxxx xxxx xxxx xxxx xxxx" (O enc_StrdImmediateT1);
+  row "xxxxxxx 1x x x0 xxxx xxxx xxxx xxxx xxxx" (O enc_StrdImmediateT1);
+  row "xxxxxxx 0x x 11 1111 xxxx xxxx xxxx xxxx" (O enc_LdrdLiteralT1);
+  row "xxxxxxx 1x x x1 1111 xxxx xxxx xxxx xxxx" (O enc_LdrdLiteralT1);
+  row "xxxxxxx 0x x 11 xxxx xxxx xxxx xxxx xxxx" (O enc_LdrdImmediateT1);
+  row "xxxxxxx 1x x x1 xxxx xxxx xxxx xxxx xxxx" (O enc_LdrdImmediateT1);
+  row "xxxxxxx 01 x 00 xxxx xxxx xxxx 0100 xxxx" (O enc_StrexbT1);
+  row "xxxxxxx 01 x 00 xxxx xxxx xxxx 0101 xxxx" (O enc_StrexhT1);
+  row "xxxxxxx 01 x 00 xxxx xxxx xxxx 0111 xxxx" (O enc_StrexdT1);
+  row "xxxxxxx 01 x 01 xxxx xxxx xxxx 000x xxxx" (O enc_TbbTbhT1);
+  row "xxxxxxx 01 x 01 xxxx xxxx xxxx 0100 xxxx" (O enc_LdrexbT1);
+  row "xxxxxxx 01 x 01 xxxx xxxx xxxx 0101 xxxx" (O enc_LdrexhT1);
+  row "xxxxxxx 01 x 01 xxxx xxxx xxxx 0111 xxxx" (O enc_LdrexdT1) ].
+
+(* ---------- A6.3.10 Store single data item: op1(23:21) Rn op2(11:6) ---------- *)
+Definition t32_sts_table : list (entry (option Z)) := [
+  row "xxxxxxxx 100 x xxxx xxxx xxxxxx xxxxxx" (O enc_StrbImmediateThumbT2);
+  row "xxxxxxxx 000 x xxxx xxxx 1xx1xx xxxxxx" (O enc_StrbImmediateThumbT3);
+  row "xxxxxxxx 000 x xxxx xxxx 1100xx xxxxxx" (O enc_StrbImmediateThumbT3);
+  row "xxxxxxxx 000 x xxxx xxxx 1110xx xxxxxx" (O enc_StrbtT1);
+  row "xxxxxxxx 000 x xxxx xxxx 000000 xxxxxx" (O enc_StrbRegisterT2);
+  row "xxxxxxxx 101 x xxxx xxxx xxxxxx xxxxxx" (O enc_StrhImmediateThumbT2);
+  row "xxxxxxxx 001 x xxxx xxxx 1xx1xx xxxxxx" (O enc_StrhImmediateThumbT3);
+  row "xxxxxxxx 001 x xxxx xxxx 1100xx xxxxxx" (O enc_StrhImmediateThumbT3);
+  row "xxxxxxxx 001 x xxxx xxxx 1110xx xxxxxx" (O enc_StrhtT1);
+  row "xxxxxxxx 001 x xxxx xxxx 000000 xxxxxx" (O enc_StrhRegisterT2);
+  row "xxxxxxxx 110 x xxxx xxxx xxxxxx xxxxxx" (O enc_StrImmediateThumbT3);
+  row "xxxxxxxx 010 x 1101 xxxx 110100 000100" (O enc_PushT3);
+  row "xxxxxxxx 010 x xxxx xxxx 1xx1xx xxxxxx" (O enc_StrImmediateThumbT4);
+  row "xxxxxxxx 010 x xxxx xxxx 1100xx xxxxxx" (O enc_StrImmediateThumbT4);
+  row "xxxxxxxx 010 x xxxx xxxx 1110xx xxxxxx" (O enc_StrtT1);
+  row "xxxxxxxx 010 x xxxx xxxx 000000 xxxxxx" (O enc_StrRegisterT2) ].
+
+(* ---------- A6.3.7 Load word: op1(24:23) Rn op2(11:6) ---------- *)
+Definition t32_ldw_table : list (entry (option Z)) := [
+  row "xxxxxxx 0x xxx 1111 xxxx xxxxxx xxxxxx" (O enc_LdrLiteralT2);
+  row "xxxxxxx 01 xxx xxxx xxxx xxxxxx xxxxxx" (O enc_LdrImmediateThumbT3);
+  row "xxxxxxx 00 xxx 1101 xxxx 101100 000100" (O enc_PopThumbT3);
+  row "xxxxxxx 00 xxx xxxx xxxx 1xx1xx xxxxxx" (O enc_LdrImmediateThumbT4);
+  row "xxxxxxx 00 xxx xxxx xxxx 1100xx xxxxxx" (O enc_LdrImmediateThumbT4);
+  row "xxxxxxx 00 xxx xxxx xxxx 1110xx xxxxxx" (O enc_LdrtT1);
+  row "xxxxxxx 00 xxx xxxx xxxx 000000 xxxxxx" (O enc_LdrRegisterThumbT2) ].
+
+(* ---------- A6.3.9 Load byte, memory hints: op1(24:23) Rn Rt(15:12) op2(11:6); rows for Rt <> 1111 (the Rt = 1111 slots are
+   preload hints, stated separately) ---------- *)
+Local Notation RC c := (LRet (Val (Some c))) (only parsing).
+Definition t32_ldb_table : list (entry (res (option Z))) := [
+  row "xxxxxxx 0x xxx 1111 xxxx xxxxxx xxxxxx" (RC enc_LdrbLiteralT1);
+  row "xxxxxxx 1x xxx 1111 xxxx xxxxxx xxxxxx" (RC enc_LdrsbLiteralT1);
+  row "xxxxxxx 00 xxx xxxx xxxx 000000 xxxxxx" (RC enc_LdrbRegisterT2);
+  row "xxxxxxx 00 xxx xxxx xxxx 1xx1xx xxxxxx" (RC enc_LdrbImmediateThumbT3);
+  row "xxxxxxx 00 xxx xxxx xxxx 1100xx xxxxxx" (RC enc_LdrbImmediateThumbT3);
+  row "xxxxxxx 00 xxx xxxx xxxx 1110xx xxxxxx" (RC enc_LdrbtT1);
+  row "xxxxxxx 01 xxx xxxx xxxx xxxxxx xxxxxx" (RC enc_LdrbImmediateThumbT2);
+  row "xxxxxxx 10 xxx xxxx xxxx 000000 xxxxxx" (RC enc_LdrsbRegisterT2);
+  row "xxxxxxx 10 xxx xxxx xxxx 1xx1xx xxxxxx" (RC enc_LdrsbImmediateT2);
+  row "xxxxxxx 10 xxx xxxx xxxx 1100xx xxxxxx" (RC enc_LdrsbImmediateT2);
+  row "xxxxxxx 10 xxx xxxx xxxx 1110xx xxxxxx" (RC enc_LdrsbtT1);
+  row "xxxxxxx 11 xxx xxxx xxxx xxxxxx xxxxxx" (RC enc_LdrsbImmediateT1) ].
+(* Rt <> 1111 as a union of cubes *)
+Definition rt_not_pc : list string :=
+  [ "xxxxxxx xx xxx xxxx 0xxx xxxxxx xxxxxx"; "xxxxxxx xx xxx xxxx 10xx xxxxxx xxxxxx";
+    "xxxxxxx xx xxx xxxx 110x xxxxxx xxxxxx"; "xxxxxxx xx xxx xxxx 1110 xxxxxx xxxxxx" ]%string.
+
+(* ---------- A6.3.8 Load halfword, memory hints (Rt <> 1111) ---------- *)
+Definition t32_ldh_table : list (entry (option Z)) := [
+  row "xxxxxxx 0x xxx 1111 xxxx xxxxxx xxxxxx" (O enc_LdrhLiteralT1);
+  row "xxxxxxx 1x xxx 1111 xxxx xxxxxx xxxxxx" (O enc_LdrshLiteralT1);
+  row "xxxxxxx 00 xxx xxxx xxxx 000000 xxxxxx" (O enc_LdrhRegisterT2);
+  row "xxxxxxx 00 xxx xxxx xxxx 1xx1xx xxxxxx" (O enc_LdrhImmediateThumbT3);
+  row "xxxxxxx 00 xxx xxxx xxxx 1100xx xxxxxx" (O enc_LdrhImmediateThumbT3);
+  row "xxxxxxx 00 xxx xxxx xxxx 1110xx xxxxxx" (O enc_LdrhtT1);
+  row "xxxxxxx 01 xxx xxxx xxxx xxxxxx xxxxxx" (O enc_LdrhImmediateThumbT2);
+  row "xxxxxxx 10 xxx xxxx xxxx 000000 xxxxxx" (O enc_LdrshRegisterT2);
+  row "xxxxxxx 10 xxx xxxx xxxx 1xx1xx xxxxxx" (O enc_LdrshImmediateT2);
+  row "xxxxxxx 10 xxx xxxx xxxx 1100xx xxxxxx" (O enc_LdrshImmediateT2);
+  row "xxxxxxx 10 xxx xxxx xxxx 1110xx xxxxxx" (O enc_LdrshtT1);
+  row "xxxxxxx 11 xxx xxxx xxxx xxxxxx xxxxxx" (O enc_LdrshImmediateT1) ].
+
+(* ---------- A6.3.13 Data-processing (register): op1(23:20) Rn op2(7:4) ---------- *)
+Definition t32_dpr_env : list (Z -> option Z) :=
+  [dec_thumb_parallel_addition_and_subtraction_signed; dec_thumb_parallel_addition_and_subtraction_unsigned; dec_thumb_miscellaneous_operations].
+Definition t32_dpr_table : list (entry (option Z)) := [
+  row "xxxxxxxx 000x xxxx 1111 xxxx 0000 xxxx" (O enc_LslRegisterT2);
+  row "xxxxxxxx 001x xxxx 1111 xxxx 0000 xxxx" (O enc_LsrRegisterT2);
+  row "xxxxxxxx 010x xxxx 1111 xxxx 0000 xxxx" (O enc_AsrRegisterT2);
+  row "xxxxxxxx 011x xxxx 1111 xxxx 0000 xxxx" (O enc_RorRegisterT2);
+  row "xxxxxxxx 0000 1111 1111 xxxx 1xxx xxxx" (O enc_SxthT2);
+  row "xxxxxxxx 0000 xxxx 1111 xxxx 1xxx xxxx" (O enc_SxtahT1);
+  row "xxxxxxxx 0001 1111 1111 xxxx 1xxx xxxx" (O enc_UxthT2);
+  row "xxxxxxxx 0001 xxxx 1111 xxxx 1xxx xxxx" (O enc_UxtahT1);
+  row "xxxxxxxx 0010 1111 1111 xxxx 1xxx xxxx" (O enc_Sxtb16T1);
+  row "xxxxxxxx 0010 xxxx 1111 xxxx 1xxx xxxx" (O enc_Sxtab16T1);
+  row "xxxxxxxx 0011 1111 1111 xxxx 1xxx xxxx" (O enc_Uxtb16T1);
+  row "xxxxxxxx 0011 xxxx 1111 xxxx 1xxx xxxx" (O enc_Uxtab16T1);
+  row "xxxxxxxx 0100 1111 1111 xxxx 1xxx xxxx" (O enc_SxtbT2);
+  row "xxxxxxxx 0100 xxxx 1111 xxxx 1xxx xxxx" (O enc_SxtabT1);
+  row "xxxxxxxx 0101 1111 1111 xxxx 1xxx xxxx" (O enc_UxtbT2);
+  row "xxxxxxxx 0101 xxxx 1111 xxxx 1xxx xxxx" (O enc_UxtabT1);
+  row "xxxxxxxx 1xxx xxxx 1111 xxxx 00xx xxxx" (LCall 0);
+  row "xxxxxxxx 1xxx xxxx 1111 xxxx 01xx xxxx" (LCall 1);
+  row "xxxxxxxx 10xx xxxx 1111 xxxx 10xx xxxx" (LCall 2) ].
+
+(* ---------- A6.3.16 Multiply, multiply accumulate, absolute difference: op1(22:20) Ra(15:12) 00 op2(5:4) ---------- *)
+Definition t32_mul_table : list (entry (option Z)) := [
+  row "xxxxxxxxx 000 xxxx 1111 xxxx 00 00 xxxx" (O enc_MulT2);
+  row "xxxxxxxxx 000 xxxx xxxx xxxx 00 00 xxxx" (O enc_MlaT1);
+  row "xxxxxxxxx 000 xxxx xxxx xxxx 00 01 xxxx" (O enc_MlsT1);
+  row "xxxxxxxxx 001 xxxx 1111 xxxx 00 xx xxxx" (O enc_SmulT1);
+  row "xxxxxxxxx 001 xxxx xxxx xxxx 00 xx xxxx" (O enc_SmlaT1);
+  row "xxxxxxxxx 010 xxxx 1111 xxxx 00 0x xxxx" (O enc_SmuadT1);
+  row "xxxxxxxxx 010 xxxx xxxx xxxx 00 0x xxxx" (O enc_SmladT1);
+  row "xxxxxxxxx 011 xxxx 1111 xxxx 00 0x xxxx" (O enc_SmulwT1);
+  row "xxxxxxxxx 011 xxxx xxxx xxxx 00 0x xxxx" (O enc_SmlawT1);
+  row "xxxxxxxxx 100 xxxx 1111 xxxx 00 0x xxxx" (O enc_SmusdT1);
+  row "xxxxxxxxx 100 xxxx xxxx xxxx 00 0x xxxx" (O enc_SmlsdT1);
+  row "xxxxxxxxx 101 xxxx 1111 xxxx 00 0x xxxx" (O enc_SmmulT1);
+  row "xxxxxxxxx 101 xxxx xxxx xxxx 00 0x xxxx" (O enc_SmmlaT1);
+  row "xxxxxxxxx 110 xxxx xxxx xxxx 00 0x xxxx" (O enc_SmmlsT1);
+  row "xxxxxxxxx 111 xxxx 1111 xxxx 00 00 xxxx" (O enc_Usad8T1);
+  row "xxxxxxxxx 111 xxxx xxxx xxxx 00 00 xxxx" (O enc_Usada8T1) ].
+
+(* ---------- A6.3.17 Long multiply, long multiply accumulate, divide: op1(22:20) op2(7:4) ---------- *)
+Definition t32_lmul_table : list (entry (option Z)) := [
+  row "xxxxxxxxx 000 xxxx xxxx xxxx 0000 xxxx" (O enc_SmullT1);
+  row "xxxxxxxxx 001 xxxx xxxx xxxx 1111 xxxx" (O enc_SdivT1);
+  row "xxxxxxxxx 010 xxxx xxxx xxxx 0000 xxxx" (O enc_UmullT1);
+  row "xxxxxxxxx 011 xxxx xxxx xxxx 1111 xxxx" (O enc_UdivT1);
+  row "xxxxxxxxx 100 xxxx xxxx xxxx 0000 xxxx" (O enc_SmlalT1);
+  row "xxxxxxxxx 100 xxxx xxxx xxxx 10xx xxxx" (O enc_SmlalxyT1);
+  row "xxxxxxxxx 100 xxxx xxxx xxxx 110x xxxx" (O enc_SmlaldT1);
+  row "xxxxxxxxx 101 xxxx xxxx xxxx 110x xxxx" (O enc_SmlsldT1);
+  row "xxxxxxxxx 110 xxxx xxxx xxxx 0000 xxxx" (O enc_UmlalT1);
+  row "xxxxxxxxx 110 xxxx xxxx xxxx 0110 xxxx" (O enc_UmaalT1) ].
+
+(* ---------- A6.3.14 Parallel addition and subtraction: op1(22:20) op2(5:4); signed S/Q/SH, unsigned U/UQ/UH ---------- *)
+Definition t32_pas_table : list (entry (option Z)) := [
+  row "xxxxxxxxx 001 xxxx xxxx xxxx xx 00 xxxx" (O enc_Sadd16T1);
+  row "xxxxxxxxx 010 xxxx xxxx xxxx xx 00 xxxx" (O enc_SasxT1);
+  row "xxxxxxxxx 110 xxxx xxxx xxxx xx 00 xxxx" (O enc_SsaxT1);
+  row "xxxxxxxxx 101 xxxx xxxx xxxx xx 00 xxxx" (O enc_Ssub16T1);
+  row "xxxxxxxxx 000 xxxx xxxx xxxx xx 00 xxxx" (O enc_Sadd8T1);
+  row "xxxxxxxxx 100 xxxx xxxx xxxx xx 00 xxxx" (O enc_Ssub8T1);
+  row "xxxxxxxxx 001 xxxx xxxx xxxx xx 01 xxxx" (O enc_Qadd16T1);
+  row "xxxxxxxxx 010 xxxx xxxx xxxx xx 01 xxxx" (O enc_QasxT1);
+  row "xxxxxxxxx 110 xxxx xxxx xxxx xx 01 xxxx" (O enc_QsaxT1);
+  row "xxxxxxxxx 101 xxxx xxxx xxxx xx 01 xxxx" (O enc_Qsub16T1);
+  row "xxxxxxxxx 000 xxxx xxxx xxxx xx 01 xxxx" (O enc_Qadd8T1);
+  row "xxxxxxxxx 100 xxxx xxxx xxxx xx 01 xxxx" (O enc_Qsub8T1);
+  row "xxxxxxxxx 001 xxxx xxxx xxxx xx 10 xxxx" (O enc_Shadd16T1);
+  row "xxxxxxxxx 010 xxxx xxxx xxxx xx 10 xxxx" (O enc_ShasxT1);
+  row "xxxxxxxxx 110 xxxx xxxx xxxx xx 10 xxxx" (O enc_ShsaxT1);
+  row "xxxxxxxxx 101 xxxx xxxx xxxx xx 10 xxxx" (O enc_Shsub16T1);
+  row "xxxxxxxxx 000 xxxx xxxx xxxx xx 10 xxxx" (O enc_Shadd8T1);
+  row "xxxxxxxxx 100 xxxx xxxx xxxx xx 10 xxxx" (O enc_Shsub8T1) ].
+Definition t32_pau_table : list (entry (option Z)) := [
+  row "xxxxxxxxx 001 xxxx xxxx xxxx xx 00 xxxx" (O enc_Uadd16T1);
+  row "xxxxxxxxx 010 xxxx xxxx xxxx xx 00 xxxx" (O enc_UasxT1);
+  row "xxxxxxxxx 110 xxxx xxxx xxxx xx 00 xxxx" (O enc_UsaxT1);
+  row "xxxxxxxxx 101 xxxx xxxx xxxx xx 00 xxxx" (O enc_Usub16T1);
+  row "xxxxxxxxx 000 xxxx xxxx xxxx xx 00 xxxx" (O enc_Uadd8T1);
+  row "xxxxxxxxx 100 xxxx xxxx xxxx xx 00 xxxx" (O enc_Usub8T1);
+  row "xxxxxxxxx 001 xxxx xxxx xxxx xx 01 xxxx" (O enc_Uqadd16T1);
+  row "xxxxxxxxx 010 xxxx xxxx xxxx xx 01 xxxx" (O enc_UqasxT1);
+  row "xxxxxxxxx 110 xxxx xxxx xxxx xx 01 xxxx" (O enc_UqsaxT1);
+  row "xxxxxxxxx 101 xxxx xxxx xxxx xx 01 xxxx" (O enc_Uqsub16T1);
+  row "xxxxxxxxx 000 xxxx xxxx xxxx xx 01 xxxx" (O enc_Uqadd8T1);
+  row "xxxxxxxxx 100 xxxx xxxx xxxx xx 01 xxxx" (O enc_Uqsub8T1);
+  row "xxxxxxxxx 001 xxxx xxxx xxxx xx 10 xxxx" (O enc_Uhadd16T1);
+  row "xxxxxxxxx 010 xxxx xxxx xxxx xx 10 xxxx" (O enc_UhasxT1);
+  row "xxxxxxxxx 110 xxxx xxxx xxxx xx 10 xxxx" (O enc_UhsaxT1);
+  row "xxxxxxxxx 101 xxxx xxxx xxxx xx 10 xxxx" (O enc_Uhsub16T1);
+  row "xxxxxxxxx 000 xxxx xxxx xxxx xx 10 xxxx" (O enc_Uhadd8T1);
+  row "xxxxxxxxx 100 xxxx xxxx xxxx xx 10 xxxx" (O enc_Uhsub8T1) ].
+
+(* ---------- A6.3.15 Miscellaneous operations: op1(21:20) op2(5:4) ---------- *)
+Definition t32_misc_table : list (entry (option Z)) := [
+  row "xxxxxxxxxx 00 xxxx xxxx xxxx xx 00 xxxx" (O enc_QaddT1);
+  row "xxxxxxxxxx 00 xxxx xxxx xxxx xx 01 xxxx" (O enc_QdaddT1);
+  row "xxxxxxxxxx 00 xxxx xxxx xxxx xx 10 xxxx" (O enc_QsubT1);
+  row "xxxxxxxxxx 00 xxxx xxxx xxxx xx 11 xxxx" (O enc_QdsubT1);
+  row "xxxxxxxxxx 01 xxxx xxxx xxxx xx 00 xxxx" (O enc_RevT2);
+  row "xxxxxxxxxx 01 xxxx xxxx xxxx xx 01 xxxx" (O enc_Rev16T2);
+  row "xxxxxxxxxx 01 xxxx xxxx xxxx xx 10 xxxx" (O enc_RbitT1);
+  row "xxxxxxxxxx 01 xxxx xxxx xxxx xx 11 xxxx" (O enc_RevshT2);
+  row "xxxxxxxxxx 10 xxxx xxxx xxxx xx 00 xxxx" (O enc_SelT1);
+  row "xxxxxxxxxx 11 xxxx xxxx xxxx xx 00 xxxx" (O enc_ClzT1) ].
